@@ -31,7 +31,33 @@ def _inlinable(h):
         return body, None
     if len(rets) == 1 and rets[0] is body[-1]:
         return body[:-1], rets[0].value
+    # guard clauses of a procedure: `if c: ...; return` followed by the rest  ==  `if c: ... else: rest`
+    if all(r.value is None for r in rets):
+        d = _desugar_guards(body)
+        if d is not None:
+            return d, None
     return None
+
+
+def _desugar_guards(body):
+    out = []
+    for i, st in enumerate(body):
+        if isinstance(st, ast.Return):
+            return out if i == len(body) - 1 else None
+        if isinstance(st, ast.If) and not st.orelse and st.body and isinstance(st.body[-1], ast.Return) and st.body[-1].value is None \
+                and not any(isinstance(n, ast.Return) for x in st.body[:-1] for n in ast.walk(x)):
+            rest = _desugar_guards(body[i + 1:])
+            if rest is None:
+                return None
+            new = clone(st)
+            new.body = new.body[:-1] or [ast.copy_location(ast.Pass(), st)]
+            new.orelse = [clone(x) for x in rest] if rest else []
+            out.append(new)
+            return out
+        if any(isinstance(n, ast.Return) for n in ast.walk(st)):
+            return None
+        out.append(st)
+    return out
 
 
 class _Rename(ast.NodeTransformer):
@@ -47,7 +73,7 @@ class _Rename(ast.NodeTransformer):
         return n
 
 
-def _expand(prog, call, owner_cls, module, depth):
+def _expand(prog, call, owner_cls, module, depth, targets=None):
     """(stmts, result expr) for an inlinable call, else None."""
     if depth <= 0 or not isinstance(call, ast.Call) or any(isinstance(a, ast.Starred) for a in call.args):
         return None
@@ -88,6 +114,16 @@ def _expand(prog, call, owner_cls, module, depth):
     stored = {n.id for s in h.body for n in ast.walk(s) if isinstance(n, ast.Name) and isinstance(n.ctx, ast.Store)}
     pre = []
     locals_map = {nm: nm + suffix for nm in stored}
+    # `a, b = helper()` with `return x, y` (x, y locals of the helper): let x, y live under the caller's names
+    direct = False
+    if targets is not None and result is not None:
+        rn = [result] if isinstance(result, ast.Name) else (result.elts if isinstance(result, ast.Tuple) else [])
+        tn = [targets] if isinstance(targets, ast.Name) else (targets.elts if isinstance(targets, ast.Tuple) else [])
+        if rn and len(rn) == len(tn) and all(isinstance(x, ast.Name) and x.id in stored and x.id not in params for x in rn) \
+                and all(isinstance(x, ast.Name) for x in tn) and len({x.id for x in rn}) == len(rn):
+            for x, t in zip(rn, tn):
+                locals_map[x.id] = t.id
+            direct = True
     for pn in list(mapping):
         if pn in stored:
             pre.append(ast.Assign(targets=[ast.Name(id=pn + suffix, ctx=ast.Store())], value=clone(mapping[pn]),
@@ -98,6 +134,8 @@ def _expand(prog, call, owner_cls, module, depth):
     res = tr.visit(clone(result)) if result is not None else None
     for s in stmts:
         ast.fix_missing_locations(s)
+    if direct:
+        return stmts, "direct"
     return stmts, res
 
 
@@ -119,11 +157,12 @@ def _rewrite_block(prog, stmts, owner_cls, module, depth):
                 out.extend(_rewrite_block(prog, body, owner_cls, module, depth - 1))
                 continue
         elif isinstance(st, ast.Assign) and len(st.targets) == 1:
-            exp = _expand(prog, st.value, owner_cls, module, depth)
+            exp = _expand(prog, st.value, owner_cls, module, depth, targets=st.targets[0])
             if exp and exp[1] is not None:
                 body, res = exp
                 out.extend(_rewrite_block(prog, body, owner_cls, module, depth - 1))
-                out.append(ast.copy_location(ast.Assign(targets=st.targets, value=res), st))
+                if not isinstance(res, str):
+                    out.append(ast.copy_location(ast.Assign(targets=st.targets, value=res), st))
                 continue
         elif isinstance(st, ast.Return) and st.value is not None:
             exp = _expand(prog, st.value, owner_cls, module, depth)
